@@ -23,7 +23,7 @@ C05-4 w_buffered_writer_short_writes
 C05-5 u_map_key_char_goes_through_escaper
 C07-1 u_parse_number_int_len20
 C07-2 k_decimal_round_6
-C07-3 s_float_fast_bounds
+C07-3 s_float_fast_sampled
 C07-4 s_float_fast_bounds
 C07-5 k_decimal_round_6
 C08-1 s_float_fast_bounds
